@@ -117,7 +117,7 @@ pub enum Store {
 impl Store {
     pub fn new(backend: Backend, walk_seed: u64, entries: &[FsEntry]) -> Store {
         match backend {
-            Backend::SimFs | Backend::RealFs => {
+            Backend::SimFs | Backend::RealFs | Backend::RealLib => {
                 let fs = SimFs::new(walk_seed);
                 crate::model::populate(&fs, entries);
                 Store::Sim(Arc::new(fs))
